@@ -32,7 +32,7 @@ PadTo(n, m) == (m - (n % m)) % m                 \* bytes needed to make n a mul
 Has(b, o, n) == o + n <= Len(b)                   \* n bytes at 0-based offset o are inside b
 Sub(b, o, n) == SubSeq(b, o + 1, o + n)           \* n bytes at 0-based offset o
 Rd16(b, o) == b[o + 1] + 256 * b[o + 2]
-Min(a, b) == IF a <= b THEN a ELSE b
+Min2(a, b) == IF a <= b THEN a ELSE b
 IsBytes(s) == \A i \in 1 .. Len(s) : s[i] \in Byte
 RECURSIVE Cat(_)
 Cat(ss) == IF Len(ss) = 0 THEN <<>> ELSE Head(ss) \o Cat(Tail(ss))
@@ -106,13 +106,14 @@ CtxStep(b, s) ==
 
 (* ---- bind_ack / alter_context_resp ---------------------------------------------------
    max_xmit LE16, max_recv LE16, assoc_group LE32, sec_addr: LE16 length + string incl. NUL
-   (length 0 = no secondary address), pad so that 2 + length is a multiple of 4,
+   (length 0 = no secondary address), pad so that 2 + length is a multiple of 4 (sa_pad: the pad octets are
+   not interpreted; conforming senders are seen to leave arbitrary octets there, so they are a free wire value),
    n_results (1) + 3 reserved, results: result LE16, reason LE16, transfer syntax uuid + LE32 version *)
 SecAddrWire(a) == IF Len(a) = 0 THEN <<>> ELSE a \o <<0>>
 EncResult(r) == LE16(r.result) \o LE16(r.reason) \o r.uuid \o r.ver
 EncBindAckBody(m) ==
   LET sa == SecAddrWire(m.sec_addr)
-  IN LE16(m.max_xmit) \o LE16(m.max_recv) \o m.assoc \o LE16(Len(sa)) \o sa \o Zeros(PadTo(2 + Len(sa), 4))
+  IN LE16(m.max_xmit) \o LE16(m.max_recv) \o m.assoc \o LE16(Len(sa)) \o sa \o m.sa_pad
        \o <<Len(m.results), 0, 0, 0>> \o Cat([i \in 1 .. Len(m.results) |-> EncResult(m.results[i])])
 
 ResMinItem == 24
@@ -210,7 +211,9 @@ WellFormedPdu(m) ==
   /\ IF Len(m.sec) = 0 THEN m.hdr.auth_len = 0
      ELSE Len(m.sec[1].auth) >= 1 /\ m.hdr.auth_len = Len(m.sec[1].auth) /\ m.kind # "bind_nak"
   /\ (m.kind = "request" => (Len(m.obj) <= 1 /\ (HasObjectFlag(m.hdr.flags) <=> Len(m.obj) = 1)))
-  /\ (m.kind \in {"bind_ack", "alter_context_resp"} => \A i \in 1 .. Len(m.sec_addr) : m.sec_addr[i] # 0)
+  /\ (m.kind \in {"bind_ack", "alter_context_resp"} =>
+        /\ \A i \in 1 .. Len(m.sec_addr) : m.sec_addr[i] # 0
+        /\ Len(m.sa_pad) = PadTo(2 + Len(SecAddrWire(m.sec_addr)), 4))
 
 Err == [kind |-> "error"]
 DecBindBody(kind, h, sec, b) ==
@@ -228,6 +231,7 @@ DecBindAckBody(kind, h, sec, b) ==
                IN IF ~r.ok THEN Err
                   ELSE [kind |-> kind, hdr |-> h, sec |-> sec, max_xmit |-> Rd16(b, 0), max_recv |-> Rd16(b, 2),
                         assoc |-> Sub(b, 4, 4), sec_addr |-> IF n = 0 THEN <<>> ELSE Sub(b, 10, n - 1),
+                        sa_pad |-> Sub(b, 10 + n, PadTo(2 + n, 4)),
                         results |-> r.items]
 DecBindNakBody(h, b) ==
   IF ~Has(b, 0, 3) THEN Err
